@@ -104,6 +104,8 @@ struct Trace {
 	Info info;
 	uint32_t n = 0, poolN = 0;
 	bool overflow = false;
+	bool budgetAbort = false;   // an FFSM2 call exceeded the callback budget (64*L+64) and was abandoned
+	uint8_t budgetState = NOID, budgetMethod = 0;
 	uint32_t normalised = 0, excludedVeto = 0;
 	Ev* ev = nullptr;
 	TaskV* pool = nullptr;
@@ -111,7 +113,7 @@ struct Trace {
 	~Trace() { delete[] ev; delete[] pool; }
 	Trace(const Trace&) = delete;
 	Trace& operator=(const Trace&) = delete;
-	void reset() { n = 0; poolN = 0; overflow = false; normalised = 0; excludedVeto = 0; }
+	void reset() { n = 0; poolN = 0; overflow = false; budgetAbort = false; normalised = 0; excludedVeto = 0; }
 };
 
 struct RunOpts {
